@@ -7,6 +7,14 @@ CLAIMED = {
             "directed pathological shapes + mutated grammar-derived texts + libFuzzer, ASan/UBSan, stdout capture, re-use of the context",
             "Generated-input search with sanitizers: absence is not established; termination approximated by CPU limits.",
             "property-based testing (Hypothesis byte mutation of grammar-derived texts) + directed size-parameterised shapes + libFuzzer, sanitizer/exit/stdout oracle"),
+    "C07": ("fault_enumeration", "5.C07",
+            "systematic error-point enumeration (every token of rich texts cut/corrupted) and exhaustive short API histories with an allocation/stream/descriptor/pointer-release balance oracle under ASan",
+            "Counting shim over confuse.c+lexer.c; coverage limited to the enumerated texts and histories.",
+            "systematic fault-point enumeration + property-based API histories (Hypothesis), resource-balance oracle, ASan/UBSan"),
+    "C18": ("fault_enumeration", "5.C18",
+            "exhaustive single-allocation-failure sweep (every k of every workload) through a force-included failable allocator, with survive/usable/balance oracle",
+            "Only allocation requests of confuse.c along the executed workloads; single failures.",
+            "fault injection: exhaustive k-th allocation failure sweep over fixed and generated workloads"),
 }
 PENDING = {}
 props = [json.loads(l) for l in open(os.path.join(V, "properties.jsonl"))]
